@@ -11,8 +11,13 @@ def _proc(args):
     env = dict(os.environ, PYTHONHASHSEED=str(hs), PYTHONPATH=REPO, PYTHONWARNINGS='ignore')
     code = ("import sys,importlib;importlib.import_module('cnfgen.clitools.%s');"
             "sys.argv=%r;sys.modules['cnfgen.clitools.%s'].main()" % (tool, [tool] + ([] if tool == 'kthlist2pebbling' else ['--seed', str(seed)]) + [str(a) for a in argv], tool))
-    r = subprocess.run(['/venv/bin/python', '-W', 'ignore', '-c', code], capture_output=True, text=True, env=env, cwd=cwd, timeout=120)
-    return r.returncode, r.stdout
+    for budget in (300, 1200):                 # a loaded machine must not turn into a verdict: one generous retry
+        try:
+            r = subprocess.run(['/venv/bin/python', '-W', 'ignore', '-c', code], capture_output=True, text=True, env=env, cwd=cwd, timeout=budget)
+            return r.returncode, r.stdout
+        except subprocess.TimeoutExpired:
+            continue
+    return 'timeout', ''
 
 
 def process_sweep(part, commands):
@@ -26,6 +31,9 @@ def process_sweep(part, commands):
     for i, (t, argv) in enumerate(commands):
         outs = {res[3 * i + j] for j in range(3)}
         part.counts['process_sweep_commands'] += 1
+        if any(o[0] == 'timeout' for o in outs):
+            part.errors.append('process sweep: `%s %s` did not finish within 20 minutes' % (t, ' '.join(str(a) for a in argv)))
+            continue
         if len(outs) != 1:
             part.case('c07.proc', 'hashseed_dependence', {'tool': t, 'argv': [str(a) for a in argv]},
                       'output of `%s --seed 1 %s` differs between processes with different PYTHONHASHSEED' % (t, ' '.join(str(a) for a in argv)))
@@ -47,6 +55,9 @@ def cwd_sweep(part, commands):
             res = pool.map(_proc, jobs)
         for i, (t, argv) in enumerate(rel):
             part.counts['cwd_sweep_commands'] += 1
+            if 'timeout' in (res[2 * i][0], res[2 * i + 1][0]):
+                part.errors.append('cwd sweep: `%s %s` did not finish within 20 minutes' % (t, ' '.join(str(a) for a in argv)))
+                continue
             if res[2 * i] != res[2 * i + 1] or res[2 * i][0] != 0:
                 part.case('c07.proc', 'cwd_dependence', {'tool': t, 'argv': [str(a) for a in argv]},
                           'output of `%s --seed 1 %s` differs between two working directories with identical files (or the run failed)' % (t, ' '.join(str(a) for a in argv)))
